@@ -5,6 +5,7 @@ the shutdown handler - runs on; it is resumed when nothing else can run or the t
 '''
 import threading
 
+from harness.detloop import NoProgress
 from harness.crashio import CTL
 from harness.indexlab import IndexRun, StopRun
 
@@ -58,7 +59,7 @@ class ShutdownRun(IndexRun):
         while True:
             self.points += 1
             if self.points > 20000:
-                raise RuntimeError('driver: too many steps')
+                raise NoProgress('driver: too many steps')
             if self.cancel_at is not None and self.points == self.cancel_at and not self.cancelled:
                 self.request_shutdown()
             self.loop.run_until_idle()
@@ -88,7 +89,7 @@ class ShutdownRun(IndexRun):
                         finally:
                             done.set()
                             ctl['parked'].set()
-                    th = threading.Thread(target=body)
+                    th = threading.Thread(target=body, daemon=True)
                     self.parked = {'job': job, 'thread': th, 'ctl': ctl, 'err': err, 'done': done}
                     th.start()
                     ctl['parked'].wait()
@@ -133,7 +134,7 @@ class ShutdownRun(IndexRun):
                 self.resume_parked()
                 continue
             if not self.loop.advance():
-                raise RuntimeError('driver: deadlock')
+                raise NoProgress('driver: deadlock')
         # the task has returned: every job still running finishes (threads are not cancelled)
         if self.parked is not None:
             self.resume_parked()
